@@ -99,6 +99,10 @@ type Ctl struct {
 	Info       []CallInfo   // the numbered calls since ArmSet (when infoOn)
 	InjectedAt []int        // numbers of the calls that failed since Arm / ArmSet
 	Killed     bool         // Kill was called (see set.go)
+	filtered   bool         // Skip / Hold active (see set.go)
+	skipSub    string
+	holdSub    string
+	holdCh     chan struct{}
 
 	// totals (statistics)
 	Total [nKinds]int
@@ -200,6 +204,9 @@ func (c *Ctl) call(k Kind) bool { return c.callKey(k, nil) }
 
 // callKey is call for the calls that carry a key (Get / Put / Delete / GetByPrefix / bucket names).
 func (c *Ctl) callKey(k Kind, key []byte) bool {
+	if c.filter() {
+		return false
+	}
 	c.mu.Lock()
 	if c.crashed {
 		c.mu.Unlock()
